@@ -89,6 +89,7 @@ func init() {
 			reqs := map[string]*builtReq{}
 			kinds := map[string]reqKind{}
 			var all []*builtReq
+			w.newRound()
 			for i := 0; i < n; i++ {
 				ids[i] = fmt.Sprintf("c%d", i+1)
 				k := cs.Kinds[rng.Intn(len(cs.Kinds))]
